@@ -161,6 +161,21 @@ def bounded(tier, seed):
 
 
 def replay(inp):
+    if inp.get('kind') == 'filter_text' and inp.get('text') is not None:
+        # a filter text on which a grammar obligation failed: the real parser against the reference parser / evaluator
+        from spec import filter_ref as FR
+        import hszinc
+        text = inp['text']
+        try:
+            FR.parse(text)
+            ref_ok = True
+        except Exception:
+            ref_ok = False
+        try:
+            r = check(text, rows_catalogue(), 0)
+            return {'reproduced': bool(r), 'detail': r or ('reference accepts: %s' % ref_ok)}
+        except Exception as e:
+            return {'reproduced': True, 'detail': '%s: %s' % (type(e).__name__, e)}
     if inp.get('kind') == 'filter':
         r = check(inp['text'], rows_catalogue(), inp.get('limit', 0))
         return {'reproduced': bool(r), 'detail': r or ''}
